@@ -72,12 +72,30 @@ var c09moreCases = []struct {
 	{"include-name-of-named-string-type", map[string]string{
 		"/main.jet": `{{range .kinds}}<{{include .}}>{{end}}|{{include .first "c"}}`, "/card.jet": `[card {{.}}]`, "/row.jet": `[row {{.}}]`},
 		map[string]interface{}{"kinds": []c09kind{"/card.jet", "/row.jet"}, "first": c09kind("/row.jet")}, "<[card /card.jet]><[row /row.jet]>|[row c]", false},
+	// exec evaluates to the value of the return that ran - also when that value is a typed nil and the return sits in a range
+	{"exec-returns-typed-nil-from-inside-range", map[string]string{
+		"/main.jet":  `{{t := exec("/find.jet", .)}}{{len(t)}}|{{range t}}#{{.}}{{else}}untagged{{end}}|{{a := exec("/finda.jet", .)}}{{len(a)}}:{{isset(a.color)}}`,
+		"/find.jet":  `x{{w := .wanted}}{{range .users}}{{if .Name == w}}{{return .Tags}}{{end}}{{.Name}}{{end}}y`,
+		"/finda.jet": `{{w := .wanted}}{{range _, u := .users}}{{if u.Name == w}}{{return u.Attrs}}{{end}}{{end}}`},
+		map[string]interface{}{"wanted": "bob", "users": c09users}, "0|untagged|0:false", false},
+	{"exec-returns-value-from-inside-range", map[string]string{
+		"/main.jet": `{{t := exec("/find.jet", .)}}{{len(t)}}|{{range t}}#{{.}}{{else}}untagged{{end}}`,
+		"/find.jet": `x{{w := .wanted}}{{range .users}}{{if .Name == w}}{{return .Tags}}{{end}}{{.Name}}{{end}}y`},
+		map[string]interface{}{"wanted": "alice", "users": c09users}, "2|#admin#ops", false},
 	{"computed-name-reads-dot-string-context", map[string]string{
 		"/main.jet": `{{include .tpl "literal-ctx"}}`, "/card.jet": `[card {{.}}]`},
 		map[string]interface{}{"tpl": "/card.jet"}, "[card literal-ctx]", false},
 }
 
 type c09kind string
+
+type c09user struct {
+	Name  string
+	Tags  []string
+	Attrs map[string]string
+}
+
+var c09users = []c09user{{Name: "alice", Tags: []string{"admin", "ops"}, Attrs: map[string]string{"color": "red"}}, {Name: "bob"}, {Name: "carol", Tags: []string{"dev"}}}
 
 var c09varForms = []string{"nil VarMap", "empty VarMap", "VarMap with an unrelated variable"}
 
